@@ -1,10 +1,13 @@
 import Proofs.Distance
+import Proofs.DeepDistance
 /-!
 # C19 — pairing distances lie in `[0, max]` and are `0` only for equal values
 
-Model: `Model/Distance/Numbers.lean` (exact rationals).  The `deep_distance` clauses need the diff
-and delta-view model and are stated in `Properties/C19Deep.lean` once that model is in place; until
-then they are decided on the implementation only (see DESIGN §5/C19 and the known findings).
+Model: `Model/Distance/Numbers.lean` (exact rationals).  The `deep_distance` clauses are stated
+over `Model/Distance/Deep.lean` (numerator: `_get_item_length` of the delta payload; denominator: the two DeepHash
+counts) at the end of this file: the range is a theorem for nested dictionaries without a type change, and the property
+is refuted in the model where the code refutes it (F13a); elsewhere it is decided on the implementation
+(see DESIGN §11 and the known findings F13, F17).
 -/
 namespace Dist
 
@@ -85,5 +88,56 @@ example : numDist 3 5 1 = 1 / 4 := by
   simp only [numDist, minR, absR]; norm_num
 example : numDist 1 (-1) (3 / 10) = 3 / 10 := by
   simp only [numDist]; norm_num
+
+
+/-! ## deep_distance (ordered comparison) -/
+
+open Py Diff Delta
+
+/-- the number of leaves `_get_item_length` counts in a value never exceeds the count DeepHash keeps for it: a value that is
+added, removed or replaces another as a whole adds at most its own share of the denominator to the numerator -/
+theorem C19_item_length_le_count (ip : Bool) (v : PyVal) : itemLen v ≤ roughLen ip v := itemLen_le_roughLen ip v
+
+/-- the denominator is made of the counts of the hash model (the model of C06 / C07), for every hasher and option set -/
+theorem C19_rough_length_is_hash_count (cfg : Hash.HCfg) (H : String → String) (v : PyVal) :
+    (Hash.hashV cfg H v).2 = roughLen cfg.ignorePrivate v := roughLen_eq_count cfg H v
+
+/-- **deep_distance of nested dictionaries lies in [0, 1] when the diff has no type change** (string keys at every level, scalar
+leaves, any depth and width; every plain ordered configuration and threshold, "too different" sub-dictionaries replaced as a
+whole included): numerator ≤ denominator, and the denominator is positive.  With type changes the numerator exceeds the
+denominator by at most their number (each adds the two type objects and the new value, against a share of at least 2). -/
+theorem C19_deep_distance_nested_dicts (cfg : DCfg) (hp : Diff.Plain cfg) (al : Align) (hashOf : PyVal → String) (a b : PyVal)
+    (ja : J cfg.ignorePrivate a) (jb : J cfg.ignorePrivate b) :
+    (deepDistance cfg al hashOf a b).1 ≤ (deepDistance cfg al hashOf a b).2 +
+        (buildDelta true false a b (deepDiff cfg al hashOf a b)).typeChanges.length ∧
+    0 < (deepDistance cfg al hashOf a b).2 ∧
+    ((buildDelta true false a b (deepDiff cfg al hashOf a b)).typeChanges = [] →
+      (deepDistance cfg al hashOf a b).1 ≤ (deepDistance cfg al hashOf a b).2) := by
+  obtain ⟨h1, h2⟩ := J_deep_distance hp al hashOf a b ja jb
+  refine ⟨h1, by omega, fun h0 => ?_⟩
+  rw [h0] at h1
+  simpa using h1
+
+/-- the property is **false** where the code is (finding F13a): `DeepDiff(1, '', get_deep_distance=True)` has numerator 3
+(two type objects and the new value) over denominator 2 -/
+theorem C19_N_deep_distance_exceeds_one (cfg : DCfg) (hp : Diff.Plain cfg) (al : Align) (hashOf : PyVal → String) :
+    deepDistance cfg al hashOf (.int 1) (.str "") = (3, 2) := by
+  have ja : J cfg.ignorePrivate (.int 1) := J.basic rfl
+  have jb : J cfg.ignorePrivate (.str "") := J.basic rfl
+  have hcats := (J_tree_facts hp al hashOf _ (.int 1) (.str "") (Nat.le_refl _) ja jb).1
+  obtain ⟨h1, _⟩ := payloadLen_of_cats (diffV cfg al hashOf [] (.int 1) (.str "")).tree (.int 1) (.str "") hcats
+  have hne : Int.repr 1 ≠ "" := by decide
+  unfold deepDistance
+  rw [J_deepDiff hp al hashOf _ _ ja jb, h1, diffV_basic cfg al hashOf [] _ _ rfl]
+  simp [treeLen, catMap, tcF, sidePath, typeName, castTo, pyEq, sumBy, changeLen, optLen, itemLen, roughLen, hne]
+
+/-- a leaf that `_get_item_length` does not count (`None`, an empty container, a value under a key with a leading underscore)
+contributes nothing: the model of findings F17a–c -/
+theorem C19_N_uncounted_leaves : itemLen .none = 0 ∧ itemLen (.list []) = 0 ∧ itemLen (.dict [(.str "_a", .int 5)]) = 0 := by
+  refine ⟨rfl, rfl, ?_⟩
+  have h : internalKey (.str "_a") = true := by
+    simp only [internalKey, Bool.or_eq_true]
+    exact Or.inl (Or.inl (by rw [String.startsWith_string_iff]; exact ⟨['a'], by decide⟩))
+  simp [itemLen, itemLenKV, h]
 
 end Dist
